@@ -59,7 +59,15 @@ func (s *Sim) Scenario() *ScenarioOut {
 	r := s.R
 	nb := nonceBook{}
 	out := &ScenarioOut{}
-	switch r.Intn(8) {
+	pick := r.Intn(11)
+	if s.ForceScenario > 0 {
+		pick = s.ForceScenario
+		s.ForceScenario = 0
+	}
+	if pick >= 9 {
+		pick = 4 // the proposal life cycle is the longest template: give it more weight
+	}
+	switch pick {
 	case 0: // dust stake in the middle of a validator's stake list, then evidence against it
 		v := s.someValidator()
 		us := s.userKeys(3)
@@ -149,6 +157,40 @@ func (s *Sim) Scenario() *ScenarioOut {
 		period := ap.MinVotingPeriodBlocks()
 		out.deliver = append(out.deliver, s.specN(nb, v, ctrlertypes.TRX_PROPOSAL, rtypes.ZeroAddress(), nil, &ctrlertypes.TrxPayloadProposal{Message: "e", StartVotingHeight: start,
 			VotingPeriodBlocks: period, ApplyingHeight: start + period + ap.LazyApplyingBlocks(), OptType: 512, Options: nil}).Build())
+	case 8: // a nested call frame touches a funded bystander and reverts (failure swallowed), then the outer frame touches it again
+		if !s.Opt.WithEVM {
+			return nil
+		}
+		us := s.userKeys(2)
+		if len(us) < 2 {
+			return nil
+		}
+		var touch, retouch *ContractRef
+		for i := range s.Contracts {
+			switch s.Contracts[i].Prog.Name {
+			case "touchreverter":
+				touch = &s.Contracts[i]
+			case "retoucher":
+				retouch = &s.Contracts[i]
+			}
+		}
+		if touch == nil || retouch == nil {
+			for _, p := range []evmgen.Program{evmgen.TouchReverter(), evmgen.Retoucher()} {
+				if (p.Name == "touchreverter" && touch != nil) || (p.Name == "retoucher" && retouch != nil) {
+					continue
+				}
+				s.PendingProg[string(p.Init)] = p
+				out.deliver = append(out.deliver, s.specN(nb, us[0], ctrlertypes.TRX_CONTRACT, rtypes.ZeroAddress(), nil, &ctrlertypes.TrxPayloadContract{Data: p.Init}).Build())
+			}
+			s.ForceScenario = 8 // call them in the next scenario slot
+			return out
+		}
+		bystander := us[1].Addr
+		if r.Chance(30) {
+			bystander = r.Bytes(20)
+		}
+		data := append(evmgen.Word(touch.Addr), evmgen.Word(bystander)...)
+		out.deliver = append(out.deliver, s.specN(nb, us[0], ctrlertypes.TRX_CONTRACT, retouch.Addr, uint256.NewInt(uint64(r.Range(0, 400))), &ctrlertypes.TrxPayloadContract{Data: data}).Build())
 	case 7: // one delegator leaves and another joins a validator with the same power in the same block (total unchanged, stakes differ)
 		var st *StakeRef
 		for i := len(s.Stakes) - 1; i >= 0; i-- {
